@@ -4,7 +4,6 @@ import re
 import sys
 import threading
 import warnings
-import ast
 from collections import OrderedDict
 from functools import singledispatch, partial
 from itertools import chain, cycle
@@ -1152,12 +1151,21 @@ def resolve_cnamedtuple_fieldnames(value):
     # https://github.com/python/cpython/blob/53b9e1a1c1d86187ad6fbee492b697ef8be74205/Objects/structseq.c#L168-L241
     # As long as the repr is implemented like that, we can count
     # on this function to work.
-    expr_node = ast.parse(repr(value), mode='eval')
-    call_node = expr_node.body
-    return tuple(
-        keyword_node.arg
-        for keyword_node in call_node.keywords
-    )
+    # The names belong to the class, so resolving them must not depend
+    # on whether the reprs of the elements of this particular value
+    # happen to be parseable: skip over each element's repr by length.
+    text = repr(value)
+    rest = text[text.index('(') + 1:]
+    fieldnames = []
+    for element in value:
+        fieldname, _, rest = rest.partition('=')
+        if not fieldname.isidentifier():
+            raise ValueError(
+                'Could not resolve field names from {}'.format(text)
+            )
+        fieldnames.append(fieldname)
+        rest = rest[len(repr(element)) + len(', '):]
+    return tuple(fieldnames)
 
 
 # Keys: classes/constructors
@@ -1173,15 +1181,13 @@ _cnamedtuple_fieldnames_by_class = WeakKeyDictionary()
 def pretty_cnamedtuple(value, ctx, trailing_comment=None):
     cls = type(value)
     if cls not in _cnamedtuple_fieldnames_by_class:
-        try:
-            fieldnames = resolve_cnamedtuple_fieldnames(value)
-        except Exception as exc:
-            fieldnames = exc
-        _cnamedtuple_fieldnames_by_class[cls] = fieldnames
+        # Only a success is remembered for the class: a failure may be
+        # specific to this value.
+        _cnamedtuple_fieldnames_by_class[cls] = (
+            resolve_cnamedtuple_fieldnames(value)
+        )
 
     fieldnames = _cnamedtuple_fieldnames_by_class[cls]
-    if isinstance(fieldnames, Exception):
-        raise fieldnames
 
     return pretty_call_alt(
         ctx,
